@@ -152,10 +152,11 @@ mutual
       match ← rwStmt q s isLast cur with
       | .stop c => pure c
       | .go fol frames =>
-        if isLast then
-          if frames.isEmpty then
-            if cur.kind = .delay then genLast q fol else pure fol
-          else pure (plug frames fol)
+        if isLast then do
+          -- `following` is the block the statement went to - after a yield in a for / switch init that is
+          -- the Bind callback's body, the one that has to end with a return (196afd9+1: was `children`)
+          let fol' ← (if fol.kind = .delay then genLast q fol else pure fol : Except String Blk)
+          pure (plug frames fol')
         else do
           let (fol2, frames2) ← combineIfNecessary q fol
           let fin ← rwStmts q rest fol2
